@@ -152,6 +152,11 @@ class CircularConvolve(LinearOperator):
                 self.h_dft = self.h_dft * shift
 
         self.real = output_dtype.kind != "c"
+        if self.real and snp.dtype(input_dtype).kind == "c":
+            raise ValueError(
+                "A CircularConvolve with complex input dtype cannot have a real output dtype: "
+                "taking the real part is not a complex-linear map."
+            )
 
         try:
             output_shape = np.broadcast_shapes(self.h_dft.shape, input_shape)
